@@ -918,7 +918,7 @@ class XsdElement(XsdComponent, ParticleMixin,
                 fields = tuple(
                     s.get_value(element_node, context.namespaces) for s in selectors
                 )
-            except (ValueError, TypeError) as err:
+            except (ValueError, TypeError, ArithmeticError) as err:
                 context.validation_error(validation, self, err, obj)
             else:
                 if all(x is not None for x in fields) or nilled:
